@@ -34,6 +34,7 @@ type spec struct {
 	stopAt           string            // statement (prefix) at which translation stops and `result` is returned
 	result           string            // Lean term for the result at stop / at the end (may mention tracked variables)
 	returns          map[string]string // printed return expression -> Lean term
+	calls            map[string][2]string // printed call statement -> (tracked variable, Lean term assigned to it)
 }
 
 var fset = token.NewFileSet()
@@ -153,11 +154,24 @@ func (t *tr) block(stmts []ast.Stmt, k string) string {
 		}
 		t.fail = append(t.fail, "return: "+pr(x))
 		return "UNTRANSLATED"
+	case *ast.ExprStmt:
+		if c, ok := t.s.calls[pr(x.X)]; ok {
+			return "(let " + leanVar(c[0]) + " := " + c[1] + "\n " + t.block(rest, k) + ")"
+		}
+		t.fail = append(t.fail, "call: "+pr(x))
+		return "UNTRANSLATED"
 	case *ast.AssignStmt:
 		if len(x.Lhs) == 1 && len(x.Rhs) == 1 {
 			l := pr(x.Lhs[0])
 			if _, ok := t.s.tracked[l]; ok {
-				return "(let " + leanVar(l) + " := " + t.expr(x.Rhs[0]) + "\n " + t.block(rest, k) + ")"
+				rhs := t.expr(x.Rhs[0])
+				switch x.Tok {
+				case token.ADD_ASSIGN:
+					rhs = "(" + leanVar(l) + " + " + rhs + ")"
+				case token.SUB_ASSIGN:
+					rhs = "(" + leanVar(l) + " - " + rhs + ")"
+				}
+				return "(let " + leanVar(l) + " := " + rhs + "\n " + t.block(rest, k) + ")"
 			}
 		}
 		t.fail = append(t.fail, "assignment: "+pr(x))
@@ -207,6 +221,17 @@ func findFunc(root string, s *spec) *ast.FuncDecl {
 }
 
 var specs = []*spec{
+	{
+		file: "player.go", recv: "player", name: "pay", leanName: "pay",
+		params: "(stack initial wager roundPot cw prev chips : Int) (isWager : Bool)", resultType: "Int × Int × Int × Int × String",
+		tracked: map[string]string{"p.state.StackSize": "stack", "p.state.Wager": "wager", "gs.Status.CurrentRoundPot": "roundPot",
+			"gs.Status.CurrentWager": "cw", "mark": "\"\"", "raised": "(0 : Int)", "minRaise": "(0 : Int)"},
+		exprs: map[string]string{"p.state.InitialStackSize": "initial", "gs.Status.PreviousRaiseSize": "prev", "chips": "chips", "isWager": "isWager"},
+		skip:  []string{"gs := p.game.GetState()", "if gs.Meta.Limit == \"pot\"", "p.state.DidAction ="},
+		calls: map[string][2]string{"p.game.BecomeRaiser(p)": {"mark", "\"raiser\""}, "p.game.ResetActedPlayers()": {"mark", "\"reset\""}},
+		returns: map[string]string{"nil": "(v_p_state_StackSize, v_p_state_Wager, v_gs_Status_CurrentRoundPot, v_gs_Status_CurrentWager, v_mark)"},
+		result:  "(v_p_state_StackSize, v_p_state_Wager, v_gs_Status_CurrentRoundPot, v_gs_Status_CurrentWager, v_mark)",
+	},
 	{
 		file: "game.go", recv: "game", name: "GetAvailableActions", leanName: "availableActions",
 		params: "(fold : Bool) (stack wager initial cw prev miniBet : Int)", resultType: "List String",
